@@ -44,3 +44,11 @@ Lemma atomic_recovery_hook_refuted :
   exists h w, final h = Some (w, OErr EOtherErr) /\
               statuses (w_led w) = [(1, SUninstalling)] /\ amem "ConfigMap/hx" (w_objs w) = true.
 Proof. exists k9_history. eexists. vm_compute. repeat split. Qed.
+
+(* a failed rollback supersedes the current revision: afterwards NO revision is deployed,
+   although revision 2's content is what is live *)
+Lemma rollback_supersedes_current :
+  exists w, final rb_history = Some (w, OErr EOtherErr) /\
+            statuses (w_led w) = [(1, SSuperseded); (2, SSuperseded); (3, SFailed)] /\
+            aget "d:k" (match aget "ConfigMap/a" (w_objs w) with Some f => f | None => [] end) = Some "v2".
+Proof. eexists. vm_compute. repeat split. Qed.
